@@ -21,7 +21,8 @@ EXPLANATION = (
     "#NUM! / #VALUE! exactly where the reference says; (C19.4) small negative values: two's complement in the width "
     'of the destination, sign read in the width of the origin; (C19.5) the module is imported by the package '
     '(shares C08.6).'
-    ' The guard rows include the widest non-negative results (nine binary, ten octal / hexadecimal digits) with places below, at and above their length.')
+    ' The guard rows include the widest non-negative results (nine binary, ten octal / hexadecimal digits) with places below, at and above their length.'
+    ' (C19.3/.4) also odd invalid digit strings (newline, blank, tab, full-width digits, prefixes), letter case of hex digits incl. the sign digit, zero-padded strings beyond ten characters.')
 NOT_DECIDED = 'exact digits for each integer (that is a run, even for the 1024-value binary window)'
 TRUSTED = ['bin/oct/hex formatter prefixes of two characters']
 
